@@ -356,3 +356,36 @@ def c04_r5(ctx):
     rec = prog.method("writing.AsyncWriter", "_record", inherited=False)
     ok = any(norm.call_name(c) == "append" and norm.canon(norm.receiver(c)) == "self.events" for c in norm.calls_in(rec.node))
     ctx.ob(rec, ok, "_record appends to self.events")
+
+
+@rule("C04", "R6", "K3", "a lock is its file: lock operations never remove or rename the lock file; AsyncWriter decides once whether it buffers",
+      min_instances=2, also=("C18", "C02"),
+      clause="No function of whoosh.util.filelock calls os.remove/os.unlink/os.rename (a waiter that locked the old inode "
+             "and a newcomer that created a new file would both hold 'the' lock); AsyncWriter binds self.writer only in "
+             "its constructor (a writer obtained later would apply later calls directly and skip the recorded ones).")
+def c04_r6(ctx):
+    prog = ctx.prog
+    mod = prog.module("util.filelock")
+    n = 0
+    for f in prog.functions.values():
+        if f.module is not mod:
+            continue
+        n += 1
+        ctx.saw(f)
+        bad = [norm.canon(c) for c in norm.calls_in(f.node, include_nested_defs=True)
+               if isinstance(c.func, ast.Attribute) and isinstance(c.func.value, ast.Name) and c.func.value.id in ("os", "shutil")
+               and c.func.attr in ("remove", "unlink", "rename", "replace", "rmtree", "move")]
+        ctx.ob(f, not bad, "does not remove or rename the lock file", detail=str(bad) if bad else "")
+    if n < 5:
+        raise AnalysisError("only %d functions in util.filelock" % n)
+    # positive control
+    sample = ast.parse("def release(self):\n    os.remove(self.filename)\n").body[0]
+    if not [c for c in norm.calls_in(sample) if isinstance(c.func, ast.Attribute) and c.func.attr == "remove"]:
+        raise AnalysisError("C04-R6 positive control failed")
+    aw = prog.cls("writing.AsyncWriter")
+    from .c15 import _self_stores
+    for m, f in aw.methods.items():
+        if m == "__init__":
+            continue
+        w = [a for a, _ in _self_stores(f) if a == "writer"]
+        ctx.ob(f, not w, "does not rebind self.writer (only the constructor decides between direct and buffered mode)")
